@@ -90,8 +90,10 @@ Definition fn_name (f : positive) : string := name_of names f.
 Definition obl_line (name : string) (domain_size : nat) (offenders : list string) : string :=
   "OBL|" ++ name ++ "|" ++ show_nat domain_size ++ "|" ++ join ";" offenders.
 
+(* details for the first 12 offenders only: a change low in the call graph can make hundreds of
+   functions offend, and the report is one printed string *)
 Definition det_lines (name : string) (offenders : list positive) : list string :=
-  map (fun f => "DET|" ++ name ++ "|" ++ fn_name f ++ "|" ++ show_eff (closure f)) offenders.
+  map (fun f => "DET|" ++ name ++ "|" ++ fn_name f ++ "|" ++ show_eff (closure f)) (firstn 12 offenders).
 
 Definition offenders_of {A} (ok : A -> bool) (domain : list A) : list A := filter (fun x => negb (ok x)) domain.
 
